@@ -145,8 +145,12 @@ class Transaction(EmbitBase):
                 res = vout
             h.update(vout.serialize())
         if is_segwit:
+            has_witness = False
             for i in range(num_vin):
-                Witness.read_from(stream)
+                if len(Witness.read_from(stream)) > 0:
+                    has_witness = True
+            if not has_witness:
+                raise TransactionError("Superfluous witness record")
         h.update(read_exact(stream, 4))
         return res, hashlib.sha256(h.digest()).digest()
 
@@ -171,6 +175,8 @@ class Transaction(EmbitBase):
         if is_segwit:
             for inp in vin:
                 inp.witness = Witness.read_from(stream)
+            if not any(inp.is_segwit for inp in vin):
+                raise TransactionError("Superfluous witness record")
         locktime = int.from_bytes(read_exact(stream, 4), "little")
         return cls(version=ver, vin=vin, vout=vout, locktime=locktime)
 
